@@ -492,6 +492,11 @@ func (c *checker) checkC14(plan *GCPlan, rep *GCReport) {
 			c.fail(P, "read-at-safe-point-refused", "safepoint", "a snapshot read at the safe point %d was refused: %s", rep.SafePoint, rep.AtErr)
 		}
 	}
+	if rep.GCErr == "" && rep.MovedChecked {
+		if rep.MovedErr != "aborted-by-gc" {
+			c.fail(P, "read-below-learned-safe-point-served", "safepoint-moved-"+rep.MovedKind, "a snapshot %s at ts %d returned %q although the store had learned the safe point %d before the last response of that read arrived (expected the aborted-by-GC error)", rep.MovedKind, rep.SafePoint, rep.MovedErr, rep.SafePoint+16)
+		}
+	}
 	if rep.DelDone && rep.DelErr == "" {
 		for k, before := range rep.TruthBefore {
 			after := rep.TruthAfter[k]
